@@ -54,7 +54,8 @@ ASSUMPTIONS = [
 ]
 
 CODEC_DOMAIN: Optional[Dict[str, Any]] = None
-DTYPES = ["uint8", "uint16", "int16", "int32", "float32", "float64", "int8", "uint32"]
+DTYPES = ["uint8", "uint16", "int16", "int32", "float32", "float64", "int8", "uint32", "int64", "uint64", "float16", "complex64"]
+RARE_DTYPES = {"int64", "uint64", "float16", "complex64"}  # drawn less often (12 % of runs)
 COMPRESSIONS = ["deflate", "adobe_deflate", "zstd", "lzw", "lzma", "lerc", "lerc_deflate", "lerc_zstd"]
 PREDICTORS = ["unset", False, True]
 
@@ -88,6 +89,8 @@ def probe_codecs() -> Dict[str, Any]:
             img = ((np.arange(32 * 48).reshape(32, 48) * 37 + 11) % 251).astype(dtype)
             if np.dtype(dtype).kind == "f":
                 img = img + img.dtype.type(0.25)
+            elif np.dtype(dtype).kind == "c":
+                img = img + img.dtype.type(0.25 - 3j)
             for comp in COMPRESSIONS:
                 for pred in PREDICTORS:
                     if comp.startswith("lerc") and pred is True:
@@ -167,7 +170,8 @@ def generate(rng: random.Random, tier: str) -> dict:
             # one step up in scale: six pyramid levels with 32 px tiles, very elongated images
             ny, nx = rng.choice([(1025, 1025), (1024, 1030), (16, 3000), (3000, 17), (1025, 40)])
             ns = min(ns, 1)
-    dtype, comp, pred = rng.choice(CODEC_DOMAIN["ok"])
+    rare = rng.random() < 0.12
+    dtype, comp, pred = rng.choice([t for t in CODEC_DOMAIN["ok"] if (t[0] in RARE_DTYPES) == rare] or CODEC_DOMAIN["ok"])
     kind = np.dtype(dtype).kind
     nodata: Any = rng.choice([None, None, 0, 7, 200 if dtype != "int8" else -100, "nan"])
     if nodata == "nan" and kind != "f":
@@ -203,7 +207,7 @@ def generate(rng: random.Random, tier: str) -> dict:
             return [first] + [c] * (rest // c) + ([rest % c] if rest % c else [])
 
         irregular = [split(ny, chy), split(nx, chx)]
-    band_chunk = rng.choice(["one", "all"])
+    band_chunk = rng.choice(["one", "all", "group"])  # group: samples chunked in twos, the last chunk possibly shorter
     sink = rng.choice(["file"] * 5 + ["s3"] * 2 + ["s3-cluster"] * 2)
     place = rng.choice(["default", "default", "base-exists", "base-nested", "xdev"]) if sink == "file" else None
     workers = rng.choice([1, 1, 2, 3, 4])
@@ -232,6 +236,7 @@ def generate(rng: random.Random, tier: str) -> dict:
         "place": place,
         "s3_min_write": rng.choice([4 << 10, 8 << 10, 16 << 10, 64 << 10]),
         "crs": rng.choice([4326, 32633, 3857]),
+        "gbox": "std" if rng.random() < 0.7 else rng.choice(GBOX_KINDS[1:]),
         "resampling": rng.choice(["nearest", "nearest", "nearest", "average", "bilinear"]),
         "dask": {
             "workers": workers,
@@ -260,7 +265,9 @@ def make_pixels(ny: int, nx: int, ns: int, axis: str, dtype: str) -> np.ndarray:
     def plane(b: int) -> np.ndarray:
         v = rows * 131 + cols * 7 + b * 1009 + 1
         if dt.kind == "f":
-            return (v % 9973).astype(dt) + dt.type(0.5)
+            return ((v % 9973).astype(dt) + dt.type(0.5)).astype(dt)
+        if dt.kind == "c":
+            return ((v % 9973) + 0.5 - 1j * ((v * 3) % 1013)).astype(dt)
         hi = int(np.iinfo(dt).max)
         return (v % min(hi, 30011)).astype(dt)
 
@@ -270,12 +277,36 @@ def make_pixels(ny: int, nx: int, ns: int, axis: str, dtype: str) -> np.ndarray:
     return np.stack(planes, axis=0 if axis == "SYX" else 2)
 
 
-def _gbox_params(crs: int, ny: int, nx: int) -> Tuple[List[float], str]:
+GBOX_KINDS = ["std", "south-up", "rot30", "rot90", "shear", "nonsquare", "mirrored"]
+
+
+def _gbox_params(crs: int, ny: int, nx: int, kind: str = "std") -> Tuple[List[float], str]:
+    from affine import Affine
+
     if crs == 4326:
-        return [0.01, 0.0, 14.0, 0.0, -0.01, 50.0], "EPSG:4326"
-    if crs == 3857:
-        return [30.0, 0.0, 1560000.0, 0.0, -30.0, 6450000.0], "EPSG:3857"
-    return [10.0, 0.0, 450000.0, 0.0, -10.0, 5540000.0], "EPSG:32633"
+        aff, name = [0.01, 0.0, 14.0, 0.0, -0.01, 50.0], "EPSG:4326"
+    elif crs == 3857:
+        aff, name = [30.0, 0.0, 1560000.0, 0.0, -30.0, 6450000.0], "EPSG:3857"
+    else:
+        aff, name = [10.0, 0.0, 450000.0, 0.0, -10.0, 5540000.0], "EPSG:32633"
+    if kind == "std":
+        return aff, name
+    a, _, c, _, e, f = aff
+    if kind == "south-up":
+        A = Affine(a, 0, c, 0, -e, f)
+    elif kind == "mirrored":
+        A = Affine(-a, 0, c, 0, e, f)
+    elif kind == "nonsquare":
+        A = Affine(a * 2, 0, c, 0, e * 0.75, f)
+    elif kind == "rot30":
+        A = Affine.translation(c, f) * Affine.rotation(30) * Affine.scale(a, e)
+    elif kind == "rot90":
+        A = Affine.translation(c, f) * Affine.rotation(90) * Affine.scale(a, e)
+    elif kind == "shear":
+        A = Affine.translation(c, f) * Affine.shear(12, 0) * Affine.scale(a, e)
+    else:
+        raise HarnessError(f"unknown gbox kind {kind}")
+    return [float(x) for x in A[:6]], name
 
 
 def _seeded_uuid(seed: int):
@@ -374,6 +405,7 @@ def _execute(record: dict, rng: Optional[random.Random]) -> Outcome:
         "multi_worker": 0,
         "padding_adds_whole_tiles": 0,
         "irregular_source_chunks": 0,
+        "samples_chunked_in_groups": 0,
         "seven_or_more_levels": 0,
         "big_endian_input": 0,
         "gdal_style_level_keyword": 0,
@@ -384,7 +416,7 @@ def _execute(record: dict, rng: Optional[random.Random]) -> Outcome:
     }
     axis, ns, dtype = cfg["axis"], cfg["ns"], cfg["dtype"]
     data = make_pixels(ny, nx, ns, axis, dtype)
-    aff, crs = _gbox_params(cfg["crs"], ny, nx)
+    aff, crs = _gbox_params(cfg["crs"], ny, nx, cfg.get("gbox", "std"))
     nodata = float("nan") if cfg["nodata"] == "nan" else cfg["nodata"]
     if hasattr(OD, "uuid4"):
         OD.uuid4 = _seeded_uuid(cfg["uuid_seed"])
@@ -404,19 +436,18 @@ def _execute(record: dict, rng: Optional[random.Random]) -> Outcome:
             chy, chx = cfg["chunks"]
             if axis == "YX":
                 chunks: Tuple[int, ...] = (chy, chx)
-            elif axis == "YXS":
-                chunks = (chy, chx, ns if cfg["band_chunk"] == "all" else 1)
-                chunks = (chy, chx, ns)  # the writer requires all samples of a pixel in one chunk for YXS
             else:
-                chunks = (ns if cfg["band_chunk"] == "all" else 1, chy, chx)
+                bc = {"all": ns, "one": 1, "group": 2}[cfg["band_chunk"]]
+                if 1 < bc < ns:
+                    probes["samples_chunked_in_groups"] = 1
+                chunks = (chy, chx, bc) if axis == "YXS" else (bc, chy, chx)
             if cfg.get("irregular_chunks"):
                 iy, ix = (tuple(c) for c in cfg["irregular_chunks"])
                 if axis == "YX":
                     chunks = (iy, ix)
-                elif axis == "YXS":
-                    chunks = (iy, ix, (ns,))
                 else:
-                    chunks = ((ns,) if cfg["band_chunk"] == "all" else (1,) * ns, iy, ix)
+                    bct = {"all": (ns,), "one": (1,) * ns, "group": (1,) * (ns % 2) + (2,) * (ns // 2)}[cfg["band_chunk"]]
+                    chunks = (iy, ix, bct) if axis == "YXS" else (bct, iy, ix)
                 probes["irregular_source_chunks"] = 1
             # the graph gets its own copy: the reference pixels must stay out of reach of the code under test
             feed = data.copy()
@@ -756,7 +787,7 @@ def check_file(path: Path, data: np.ndarray, cfg: dict, aff: List[float], crs: s
     if not np.array_equal(pix[:, :ny, :nx], src_b):
         bad = np.argwhere(pix[:, :ny, :nx] != src_b)
         return Violation(PROP, "O5.1", "gdal-pixels-differ", {"n": int(len(bad)), "first": bad[0].tolist(), "axis": axis, "ns": ns, "source": [ny, nx]})
-    if not np.allclose(f_tr, aff, rtol=0, atol=1e-9 * max(1.0, abs(aff[0]))):
+    if not np.allclose(f_tr, aff, rtol=0, atol=1e-9 * max(1.0, abs(aff[0]), abs(aff[1]))):
         return Violation(PROP, "O5.1", "transform-differs", {"got": list(f_tr), "want": aff})
     try:
         import pyproj
@@ -805,7 +836,7 @@ def candidates(record: dict) -> Iterable[dict]:
             yield c
     for k, simple in (
         ("place", "default"), ("stats", False), ("bigtiff", True), ("nodata", None), ("level", None), ("spill_sz", "default"), ("wpc", "default"),
-        ("resampling", "nearest"), ("predictor", "unset"), ("blocksize", [16]), ("blocksize", [32]), ("band_chunk", "all"), ("crs", 4326),
+        ("resampling", "nearest"), ("predictor", "unset"), ("blocksize", [16]), ("blocksize", [32]), ("band_chunk", "all"), ("crs", 4326), ("gbox", "std"),
     ):
         if cfg.get(k) != simple and not (k == "place" and cfg["sink"] != "file"):
             c = copy.deepcopy(record)
